@@ -57,7 +57,9 @@ ASSUMPTIONS = [
     "order and column order; the multi-index frame is decoded by labels",
     "in the graph exploration instances and time points are labelled 0..n-1; non-default "
     "instance labels (descending ints, unsorted strings, shuffled) are covered by kind=instlabels "
-    "on the label-carrying paths nested<->multi-index->3d/nested and nested->long",
+    "on the label-carrying paths nested<->multi-index->3d/nested and nested->long; multi-index "
+    "panels that are selections (instances x time points) of a bigger panel, which keep the "
+    "parent's unused level entries, by kind=misubset",
     "dtype of the produced containers is not judged, only numeric equality of every value",
     "conversions of frames mixing nested and primitive columns are outside the statement; "
     "only the predicates are judged on them",
@@ -100,6 +102,15 @@ def gen_cases(tier, seed):
                 for pth in INSTPATHS:
                     yield dict(kind="instlabels", I=I, C=C, T=T, labels=lk, path=pth,
                                fam=(k + seed) % NFAM)
+    # multi-index panels that are SELECTIONS of a bigger panel (pandas keeps the unused level
+    # entries of the parent): every non-empty subset of 3 instances x 3 time selections
+    for C in (1, 2):
+        for T in (2, 3):
+            for sel in ([0], [1], [2], [0, 1], [0, 2], [1, 2], [0, 1, 2]):
+                for tsel in ("all", "head", "tail"):
+                    yield dict(kind="misubset", C=C, T=T, sel=sel, tsel=tsel,
+                               fam=(k + seed) % NFAM)
+                    k += 1
     for (I, C, T) in shapes:
         for nk in NAMEKINDS:
             for st in STARTS:
@@ -817,6 +828,8 @@ def run_case(case):
         return _run_series2d(case, res)
     if kind == "instlabels":
         return _run_instlabels(case, res)
+    if kind == "misubset":
+        return _run_misubset(case, res)
     raise ValueError(kind)
 
 
@@ -825,6 +838,46 @@ INSTLABELS = {"desc": lambda I: [9 - 2 * i for i in range(I)],
               "shuffled": lambda I: [(i * 2 + 1) % I if I % 2 else (I - 1 - i) for i in range(I)]}
 INSTPATHS = [["n>mi", "mi>n"], ["n>mi", "mi>3d"], ["n>3d"], ["n>mi", "mi>n", "n>mi", "mi>3d"],
              ["n>mi", "mi>nA"], ["n>long"]]
+
+
+def _run_misubset(case, res):
+    """a multi-index panel obtained by selecting instances / time points of a bigger one must
+    convert like a freshly built panel with the same content"""
+    import sktime.utils.data_processing as dp
+
+    C, T, sel, tsel = case["C"], case["T"], case["sel"], case["tsel"]
+    Tb = T + 1
+    big = np.array([[[_value(i, c, t, case["fam"]) for t in range(Tb)] for c in range(C)]
+                    for i in range(3)], dtype=float)
+    mi = dp.from_3d_numpy_to_multi_index(big, instance_index="case", time_index="time")
+    ts = {"all": list(range(Tb)), "head": list(range(T)), "tail": list(range(1, Tb))}[tsel]
+    inst = mi.index.get_level_values(0)
+    tim = mi.index.get_level_values(1)
+    sub = mi[np.isin(inst, sel) & np.isin(tim, ts)]
+    want = big[sel][:, :, ts]
+    res.evals += 1
+    for name, fn in (("mi>3d", lambda: dp.from_multi_index_to_3d_numpy(
+            sub, instance_index="case", time_index="time")),
+            ("mi>n>3d", lambda: dp.from_nested_to_3d_numpy(dp.from_multi_index_to_nested(
+                sub, instance_index="case")))):
+        o = call(fn)
+        res.transitions += 1
+        if not o.ok:
+            res.violate("misubset:%s:raises" % name, "conversion raised for a multi-index panel "
+                        "that is a selection of a bigger panel", observed=dict(
+                            error=o.brief(), instances=sel, times=tsel))
+            return res
+        got = np.asarray(o.value, dtype=float)
+        if got.shape != want.shape or not np.array_equal(got, want):
+            res.violate("misubset:%s:values" % name, "values / shape changed for a multi-index "
+                        "panel that is a selection of a bigger panel",
+                        expected=dict(shape=list(want.shape), values=want.tolist()),
+                        observed=dict(shape=list(got.shape), values=got.tolist(),
+                                      instances=sel, times=tsel))
+            return res
+    res.nt(("misubset", C, T, tuple(sel), tsel))
+    res.outcome("misubset:ok")
+    return res
 
 
 def _run_instlabels(case, res):
@@ -836,7 +889,7 @@ def _run_instlabels(case, res):
     I, C, T = case["I"], case["C"], case["T"]
     labs = INSTLABELS[case["labels"]](I)
     vals = [[[_value(i, c, t, case["fam"]) for t in range(T)] for c in range(C)] for i in range(I)]
-    names = ["b", "a", "c"][:C]
+    names = ["b", "a", "c", "aa", "d"][:C]
     X = pd.DataFrame({names[c]: _obj_col([pd.Series(vals[i][c]) for i in range(I)])
                       for c in range(C)}, columns=names)
     X.index = pd.Index(labs)
